@@ -101,8 +101,10 @@ def real_side(data):
         return None
     if ops is None:
         return None
+    from harness.vmcheck import timed, CASE_LIMIT
     try:
-        fk, _, _ = vmlib.fk_trace(data)
+        # a call that does not return is reported with its program (TIMEOUT differs from every model answer)
+        fk = timed(lambda: vmlib.fk_trace(data)[0], default=["TIMEOUT (no answer after %d s)" % CASE_LIMIT])
     except Exception as e:
         fk = ["PARSE-ERR"]
     vm, _, _, _ = vmlib.vm_trace(data)
